@@ -7,7 +7,11 @@ pub mod c04;
 pub mod c05;
 pub mod c11;
 pub mod c14;
+pub mod c07;
+pub mod c01m;
+pub mod c01;
 pub mod evs;
+pub mod fraggen;
 pub mod ost;
 
 use super::engine::{Codec, Tier};
@@ -24,6 +28,8 @@ pub fn run_property<C: Codec>(id: &str, tier: Tier) -> i32 {
         "C05" => c05::run::<C>(tier),
         "C11" => c11::run::<C>(tier),
         "C14" => c14::run::<C>(tier),
+        "C07" => c07::run::<C>(tier),
+        "C01" => c01::run::<C>(tier),
         _ => {
             println!("INCONCLUSIVE unknown property {id}");
             2
@@ -50,6 +56,8 @@ pub fn replay<C: Codec>(text: &str) -> i32 {
         "C05" => c05::replay::<C>(text, &known),
         "C11" => c11::replay::<C>(text, &known),
         "C14" => c14::replay::<C>(text, &known),
+        "C07" => c07::replay::<C>(text, &known),
+        "C01" => c01::replay::<C>(text, &known),
         _ => None,
     };
     match r {
